@@ -143,8 +143,11 @@ func VerifProviderRoutes() {
 	if !anyAllowed {
 		gosym.AssertKF(px.called == 0, "no backend is contacted when no healthy endpoint of the provider exists", "KF-C11-1", len(healthy) > 0)
 		gosym.AssertKF(w.status >= 400, "the client gets an error when no healthy endpoint of the provider exists", "KF-C11-1", len(healthy) > 0)
-	} else if px.called > 0 {
-		gosym.Assert(px.path == path, "the provider prefix is stripped from the upstream path")
+	} else {
+		gosym.Assert(px.called == 1, "a request to a provider with a healthy endpoint of that provider is served")
+		if px.called > 0 {
+			gosym.Assert(px.path == path, "the provider prefix is stripped from the upstream path")
+		}
 	}
 	gosym.Reach("end")
 }
